@@ -51,11 +51,11 @@ PROPS = {
     'C05': {
         'title': 'Embedded log never loses or resurrects records',
         'level': 'proof',
-        'level_text': 'Write side: unbounded deductive proof (Verus/Z3) that every public mutator of EmbeddedWal (append_entry, record_checkpoint, sentinel writers; stats read-only) preserves the representation invariant wf and moves the ghost view pending() = records a scan of the region returns with sequence > checkpoint exactly as the reference list does, for all region sizes, payload sizes and histories (invariant, no bound); rejected appends leave the object unchanged. Functions are extracted verbatim from src/io/wal.rs on every run. Scan side (BOUNDED, Kani, modular): records_after / pending_records / open / open_read_only return exactly the scanned records with sequence above the requested one, in order, payloads untouched, and set sequence / pending_bytes / write_head / checkpoint_sequence from the scan (0, 1, 2 scanned records with symbolic sequences and payload bytes) - verified against the contract of scan_records; write_record and write_zero_header are checked bit-precisely on an in-memory disk for enumerated lengths / positions.',
-        'level_note': 'Level proof refers to the write-side protocol (the invariant over all histories); the scan side is bounded and modular (Kani), and the agreement of scan_records with the spec scan on real bytes is ASSUMED (A-CODEC(scan)). Also assumed: File model (A-FILE), blake3 determinism, le-bytes axiom, range preconditions (wal_size <= 2^62, sequence < u64::MAX, payload >= 1 byte). Callers in mutation.rs are not under contract.',
+        'level_text': 'Write side: unbounded deductive proof (Verus/Z3) that every public mutator of EmbeddedWal (append_entry, record_checkpoint, sentinel writers; stats read-only) preserves the representation invariant wf and moves the ghost view pending() = records a scan of the region returns with sequence > checkpoint exactly as the reference list does, for all region sizes, payload sizes and histories (invariant, no bound); rejected appends leave the object unchanged. Functions are extracted verbatim from src/io/wal.rs on every run. Scan side: scan_records itself is proved in Verus (walscan unit, unbounded: a successful scan is exactly the spec scan of the region). Its callers (BOUNDED, Kani, modular): records_after / pending_records / open / open_read_only return exactly the scanned records with sequence above the requested one, in order, payloads untouched, and set sequence / pending_bytes / write_head / checkpoint_sequence from the scan (0, 1, 2 scanned records with symbolic sequences and payload bytes) - verified against the contract of scan_records; write_record and write_zero_header are checked bit-precisely on an in-memory disk for enumerated lengths / positions.',
+        'level_note': 'Level proof refers to the write-side protocol (the invariant over all histories) and to scan_records (Verus, with four declared expression rewrites); the callers of scan_records (records_after / open) are bounded and modular (Kani, <= 2 records), and one bounded native stand-in covers the converse direction of the scan. Also assumed: File model (A-FILE), blake3 determinism, le-bytes axiom, range preconditions (wal_size <= 2^62, sequence < u64::MAX, payload >= 1 byte). Callers in mutation.rs are not under contract.',
         'technique': 'Verus data-structure invariant + ghost view over the extracted real methods; Kani modular harnesses (callee contract stubs) for the scan side',
         'design_ref': 'DESIGN.md section 3 (C05), Appendix A',
-        'verus': ['wal'],
+        'verus': ['wal', 'walscan'],
         'kani': [
             H(WAL, 'write_record_contract_len1_pos0', 'quick', 'bounded', 'payload 1 byte at position 0', playback=False),
             H(WAL, 'write_record_contract_len2_pos3', 'quick', 'bounded', 'payload 2 bytes at position 3', playback=False),
@@ -73,12 +73,20 @@ PROPS = {
             H(WAL, 'wal_records_after_n2_tail', 'quick', 'bounded', '2 scanned records, head in the short tail', playback=False),
             H(WAL, 'wal_records_after_n2_full', 'thorough', 'bounded', '2 scanned records, head at the region end', playback=False),
             H(WAL, 'wal_scan_error_propagates', 'thorough', 'bounded', 'failing scan', playback=False),
+            H(WAL, 'wal_scan_layout_tiny_region', 'quick', 'bounded', 'region 40 (< one header), all bytes symbolic', playback=False),
             H(WAL, 'wal_open_rejects_zero_size', 'quick', 'complete', '', playback=False),
             H(WAL, 'wal_open_ro_n0_head0', 'quick', 'bounded', '0 scanned records, read-only', playback=False),
             H(WAL, 'wal_open_ro_n1_head49', 'quick', 'bounded', '1 scanned record, read-only', playback=False),
             H(WAL, 'wal_open_ro_n2_tail', 'quick', 'bounded', '2 scanned records, read-only', playback=False),
             H(WAL, 'wal_open_rw_n2_head', 'quick', 'bounded', '2 scanned records, writable', playback=False),
+            H(WAL, 'wal_open_rw_n2_full', 'quick', 'bounded', '2 scanned records, log ends exactly at the region end, writable', playback=False),
+            H(WAL, 'wal_open_ro_n1_full', 'thorough', 'bounded', '1 scanned record, log ends exactly at the region end, read-only', playback=False),
         ],
+        # Bounded native stand-in for the one function neither verifier reaches (scan_records on real bytes)
+        'native': [{'name': 'native:wal::scan_and_history_enumeration', 'driver': 'wal',
+                    'env': {'VERIF_WAL_MAX_DEPTH': {'quick': '2', 'thorough': '3'}},
+                    'bound': {'quick': 'NATIVE, BOUNDED: every append/checkpoint/reopen/stats history of depth <= 2 over regions {96,100,144,160,200,256} with 10 edge payload sizes, against a reference list; plus A-CODEC(scan): well-formed region images with 0-3 records over 5 region sizes and every single-byte corruption of them (3 masks), read-only open + pending_records against an executable copy of sp::scan',
+                              'thorough': 'as quick, histories to depth 3'}}],
         # A-INPLACE: std's in-place `collect` (IntoIter<ScannedRecord> -> Vec<WalRecord>, 40-byte to 32-byte
         # elements) makes Kani's allocator model report layout / size mismatches inside std; those checks are
         # excluded for the harnesses that reach records_after, and only those
@@ -87,10 +95,10 @@ PROPS = {
                                     'wal_records_after_n2_full', 'wal_scan_error_propagates')},
         'assumptions': [A_FILE, A_HASH, A_LE, A_TRACE, A_ARITH, A_TOOLS, A_KANI_STUBS,
                         'A-CODEC(write): Verus assumes write_record writes exactly the record image (rec_written); proved on the real function by kani:io::wal::write_record_contract_* for the enumerated payload lengths / positions',
-                        'A-CODEC(scan): scan_records computes the spec scan sp::scan - ASSUMED; the bit-precise harnesses for it (wal_scan_matches_spec_*) do not answer within the caps in this sandbox and are not part of the claim',
+                        'A-CODEC(scan): PROVED in the walscan Verus unit (unbounded, loop invariant scan_split): a successful scan_records IS the spec scan sp::scan of the region (same records in order, same payload bytes, same end cursor) and succeeds only if the spec scan accepts the region; bytes of the file are not changed; no overflow / out-of-range index; terminates. The extraction applies four declared expression rewrites (E7r, listed in the evidence): the two from_le_bytes(..try_into().map_err(|_| ..)?) header parses become le64_at / le32_at with assumed little-endian specs (A-LE; the map_err branches are dead because the slices have the exact length), usize::try_from(length) becomes `length as usize` (A-ARCH: 64-bit target), and `a != b` on byte slices becomes !bytes_eq(a, b) (slice equality is element-wise). The converse direction (a region the spec scan accepts is not rejected, absent I/O errors) is not expressible because of the `?`/From limit and is covered by the BOUNDED NATIVE STAND-IN native:wal::scan_and_history_enumeration (never counted as proved)',
                         'A-SCANSTUB: records_after / pending_records / open are verified against the contract of scan_records (a stub returning any result the contract allows for 0, 1 or 2 records)',
                         'A-INPLACE: allocator-model artefacts of std in-place collect are excluded for the records_after harnesses (listed in evidence)'],
-        'not_covered': ['scan_records against the spec scan on real bytes (A-CODEC(scan), assumed)', 'the error path of open (drops a File: foreign function close)',
+        'not_covered': ['deductive proof that scan_records never rejects a region the spec scan accepts (bounded native stand-in only)', 'the error path of open under Kani (drops a File: foreign function close; covered by the native histories)',
                         'callers in mutation.rs (WAL growth, persisting the header after a checkpoint): that is C01, not claimed'],
         'search': 'wal',
     },
@@ -98,11 +106,11 @@ PROPS = {
     'C30': {
         'title': 'File-format codecs round-trip and reject malformed input',
         'level': 'model_checking',
-        'level_text': 'Header and commit-footer codecs: complete proofs (Kani/CBMC, loop-free harnesses over ALL header values, ALL 4096-byte images, ALL footer values, ALL 56-byte images, compiled inside the real crate): decode(encode(v)) == v, encode rejects exactly the invalid headers, an accepted image is the canonical encoding of the value returned (so a wrong magic/version/spec/wal_offset/wal_size is rejected and no different value is returned). Time index: BOUNDED (n <= 3 entries, every i64/u64 value): append_track sorts by (timestamp, frame_id), permutes, length = 12+16n, read_track returns exactly those; an arbitrary image of 12+16n bytes with an arbitrary declared length is accepted only with the right magic, length and order, and never panics. TOC: only the decision logic of Toc::verify_checksum is verified (modular, encoders and hash replaced by ghost functions): the stored checksum is accepted iff it is the digest of a zero-checksum encoding in a format that covers every optional field present (current; V2 only without replay_manifest; V1 only without memories_track and replay_manifest). Toc::encode / decode themselves (serde/bincode) are NOT covered.',
+        'level_text': 'Header and commit-footer codecs: complete proofs (Kani/CBMC, loop-free harnesses over ALL header values, ALL 4096-byte images, ALL footer values, ALL 56-byte images, compiled inside the real crate): decode(encode(v)) == v, encode rejects exactly the invalid headers, an accepted image is the canonical encoding of the value returned (so a wrong magic/version/spec/wal_offset/wal_size is rejected and no different value is returned). Time index: BOUNDED (n <= 3 entries, every i64/u64 value): append_track sorts by (timestamp, frame_id), permutes, length = 12+16n, read_track returns exactly those; an arbitrary image of 12+16n bytes with an arbitrary declared length is accepted only with the right magic, length and order, and never panics. read_toc (Verus, unbounded, over the File model): a TOC is returned only if the trailing 56 bytes decode as a footer whose toc_len equals the length of the bytes between header.footer_offset and the footer, whose hash matches those bytes, and which pass verify_toc_prefix - i.e. inconsistent length / checksum fields are rejected on the header-directed read path. TOC: only the decision logic of Toc::verify_checksum is verified (modular, encoders and hash replaced by ghost functions): the stored checksum is accepted iff it is the digest of a zero-checksum encoding in a format that covers every optional field present (current; V2 only without replay_manifest; V1 only without memories_track and replay_manifest). Toc::encode / decode themselves (serde/bincode) are NOT covered.',
         'level_note': 'Level is model_checking because the time-index part is bounded by the entry count (n <= 3; n <= 2 in the quick tier) and the TOC codec is covered only in the decision logic of verify_checksum (serde-derived bincode visitors over String/BTreeMap are outside both tools). The header/footer parts are complete (no bound). blake3::Hasher is stubbed in the time-index harnesses (the checksum value plays no role in these obligations).',
         'technique': 'Kani loop-free full-domain codec harnesses (complete) + bounded Kani harnesses for the time index, inside the real crate',
         'design_ref': 'DESIGN.md section 3 (C30)',
-        'verus': [],
+        'verus': ['readtoc'],
         'kani': [
             H(HDR, 'header_encode_decode_roundtrip'), H(HDR, 'header_decode_implies_encode'), H(HDR, 'header_clear_legacy_lock'),
             H(FTR, 'footer_roundtrip'), H(FTR, 'footer_decode_implies_encode'), H(FTR, 'footer_decode_rejects_wrong_length'),
@@ -114,7 +122,9 @@ PROPS = {
             H(TIX, 'time_track_rejects_n1', 'thorough', 'bounded', 'all 28-byte images, any declared length'),
             H('toc', 'toc_verify_checksum_decision', 'quick', 'modular', '', playback=False),
         ],
-        'assumptions': [A_HASH, A_LE, A_TRACE, A_TOOLS, A_KANI_STUBS,
+        'assumptions': [A_HASH, A_LE, A_TRACE, A_TOOLS, A_KANI_STUBS, A_FILE,
+                        'A-ARCH: 64-bit target (usize is 8 bytes) in the readtoc unit',
+                        'A-TOC: Toc::decode is a function of the bytes (external_body in the readtoc unit; serde/bincode is not verified)',
                         'A-TOCENC: in toc_verify_checksum_decision the three bincode encoders and blake3 are replaced by ghost functions that keep the format tag, a digest of the optional fields the format covers, and whether the checksum field was zeroed (the encoders themselves are not verified)',
                         'std::io::Cursor<Vec<u8>> stands for the file in the time-index harnesses (real std code, not a stub)'],
         'not_covered': ['TOC: Toc::encode / decode (serde-derived bincode with legacy fall-backs, trailing-bytes rejection) - no contract within reach of Verus or CBMC; only the checksum decision logic is covered',
@@ -133,6 +143,8 @@ PROPS = {
             H(SKT, 'filter_no_false_negative_n1', 'quick', 'bounded', '1 hash'), H(SKT, 'filter_no_false_negative_n2', 'quick', 'bounded', '2 hashes'),
             H(SKT, 'filter_no_false_negative_n3', 'quick', 'bounded', '3 hashes'), H(SKT, 'filter_no_false_negative_n4', 'thorough', 'bounded', '4 hashes'),
             H(SKT, 'filter_no_false_negative_n6', 'thorough', 'bounded', '6 hashes'),
+            H(SKT, 'filter_long_list_last_16', 'quick', 'bounded', '129 hashes (128 concrete + the last symbolic), 16-byte filter'),
+            H(SKT, 'filter_long_list_first_16', 'quick', 'bounded', '129 hashes (the first symbolic + 128 concrete), 16-byte filter'),
             H(SKT, 'filter_contains_monotone_16'), H(SKT, 'filter_contains_extremes'),
             H(SKT, 'sketch_small_roundtrip'), H(SKT, 'sketch_small_bytes_roundtrip'), H(SKT, 'sketch_medium_roundtrip'),
             H(SKT, 'sketch_header_roundtrip'), H(SKT, 'sketch_header_rejects_bad_magic'),
@@ -189,7 +201,7 @@ PROPS = {
             ]] +
             [H(ADP, 'normalize_range_n1', 'quick', 'bounded', '1 score, every finite value'),
              H(ADP, 'normalize_table_n2', 'quick', 'bounded', '2 scores from the 12-value table'),
-             H(ADP, 'normalize_table_n3', 'thorough', 'bounded', '3 scores from the 12-value table')]
+             H(ADP, 'normalize_table_n3', 'quick', 'bounded', '3 scores from the 12-value table (the smallest length at which a wrong maximum shows: with 2 scores the range collapses to 0)')]
         ),
         'assumptions': [A_TOOLS, A_TRACE, 'scores and parameters are finite and not NaN (the quantifier of C37: "NaN-free extremes")',
                         'alloc::fmt::format is stubbed to an empty String in the helper harnesses (the reason text plays no role)',
@@ -229,11 +241,11 @@ PROPS = {
     'C22': {
         'title': 'No panic or hang on arbitrary file bytes',
         'level': 'model_checking',
-        'level_text': 'DECODER LAYER ONLY.  Proved without bound (Verus on functions extracted verbatim; overflow, index bounds and termination are proof obligations): find_last_valid_footer on every byte string; locate_footer_window (src/memvid/lifecycle.rs, the window-doubling scan used by open / open_read_only / verify) on every byte string, checked against find_last_valid_footer\'s contract.  Proved complete by loop-free Kani harnesses over the full input domain: HeaderCodec::decode on all 4096-byte images, CommitFooter::decode on all 56-byte images and on every wrong length, SketchTrackHeader::from_bytes / SketchEntrySmall::from_bytes on all images.  BOUNDED (Kani): read_track on every image of 12 / 28 bytes with every declared length (entry count and length fields fully symbolic); verify_toc_prefix (the guard in front of the TOC decoder) on every image of 0 / 8 / 23 / 24 / 120 bytes: never panics and accepts exactly the images whose version and counts are within the limits and whose minimum payload fits; EmbeddedWal::scan_records on region images of 64 / 112 bytes with enumerated length fields.  Kani checks every panic, arithmetic overflow, slice index, unwrap and allocation-size failure on the explored paths.',
+        'level_text': 'DECODER LAYER ONLY.  Proved without bound (Verus on functions extracted verbatim; overflow, index bounds and termination are proof obligations): find_last_valid_footer on every byte string; locate_footer_window (src/memvid/lifecycle.rs, the window-doubling scan used by open / open_read_only / verify) on every byte string, checked against find_last_valid_footer\'s contract; read_toc (src/memvid/lifecycle.rs, the header-directed TOC read of open / doctor) on every file image and every header over the File model: no underflow in `len - footer_offset` / `buf.len() - FOOTER_SIZE`, no out-of-range slice, and a returned TOC is the decoding of exactly the bytes between footer_offset and the trailing footer whose length, hash and prefix guard were checked.  Proved complete by loop-free Kani harnesses over the full input domain: HeaderCodec::decode on all 4096-byte images, CommitFooter::decode on all 56-byte images and on every wrong length, SketchTrackHeader::from_bytes / SketchEntrySmall::from_bytes on all images.  EmbeddedWal::scan_records on every region image over the File model (Verus walscan unit: no overflow, no out-of-range index, terminates). BOUNDED (Kani): read_track on every image of 12 / 28 bytes with every declared length (entry count and length fields fully symbolic); verify_toc_prefix (the guard in front of the TOC decoder) on every image of 0 / 8 / 23 / 24 / 120 bytes: never panics and accepts exactly the images whose version and counts are within the limits and whose minimum payload fits; Kani checks every panic, arithmetic overflow, slice index, unwrap and allocation-size failure on the explored paths.',
         'level_note': 'This claim detects regressions in the byte decoders and in the footer window scan; it does NOT cover the layers above them: TOC decode under catch_unwind, index loading, tantivy, recover_toc / doctor / verify logic (1 600 + 1 700 lines of Memvid code) are outside both tools (DESIGN.md section 4, reason W).  read_sketch_track as a whole did not answer within the caps (HashMap) and is covered only through its header/entry decoders.',
         'technique': 'Verus totality proofs (bounds, overflow, decreases) on extracted functions + Kani full-domain / bounded decoder harnesses',
         'design_ref': 'DESIGN.md section 3 (C22)',
-        'verus': ['footer', 'lifecycle'],
+        'verus': ['footer', 'lifecycle', 'readtoc', 'walscan'],
         'kani': [
             H(HDR, 'header_decode_implies_encode'), H(FTR, 'footer_decode_implies_encode'), H(FTR, 'footer_decode_rejects_wrong_length'),
             H(SKT, 'sketch_header_rejects_bad_magic'), H(SKT, 'sketch_small_bytes_roundtrip'),
@@ -244,7 +256,8 @@ PROPS = {
             H('memvid::lifecycle', 'toc_prefix_len120', 'quick', 'bounded', 'all 120-byte images'),
         ],
         'assumptions': [A_MEMRCHR, A_HASH, A_LE, A_TRACE, A_ARITH, A_TOOLS, A_KANI_STUBS,
-                        'locate_footer_window is checked against the CONTRACT of find_last_valid_footer (proved in the footer unit), not its body'],
+                        'locate_footer_window is checked against the CONTRACT of find_last_valid_footer (proved in the footer unit), not its body',
+                        A_FILE, 'A-ARCH: 64-bit target (usize is 8 bytes) in the readtoc unit', 'A-TOC: Toc::decode is a function of the bytes (external_body; serde/bincode is not verified)'],
         'not_covered': ['Toc::decode / verify_checksum, recover_toc, scan_range_for_toc, index loading, tantivy, doctor, verify: everything above the byte decoders',
                         'read_sketch_track as a whole (HashMap-backed track: no answer within the caps)', 'hangs other than in the two Verus-proved loops'],
         'search': {'footer|lifecycle': 'footer'},
